@@ -15,6 +15,7 @@ func init() {
 	vrt.Register("C09_nestings", Nestings)
 	vrt.Register("C09_top_level_let", TopLevelLet)
 	vrt.Register("C09_use_in_other_scope", UseInOtherScope)
+	vrt.Register("C09_repeated_use", RepeatedUse)
 }
 
 func itoa(n int) string { return strconv.Itoa(n) }
@@ -171,5 +172,47 @@ func UseInOtherScope() {
 	vrt.Note("got", got)
 	vrt.Assert(err == nil, "using a stored block / function / block helper inside another scope renders")
 	vrt.Assert(got == want, "the using scope keeps its own names after the use; nothing leaks out of either scope")
+	vrt.Cover("done")
+}
+
+// names bound during one use of a stored block / function / partial / block
+// helper are invisible in the next use of the same thing
+func RepeatedUse() {
+	n0, q1 := vrt.Int(), vrt.Int()
+	ctx := plush.NewContext()
+	ctx.Set("N0", n0)
+	ctx.Set("Q1", q1)
+	ctx.Set("own", own)
+	ctx.Set("partialFeeder", func(string) (string, error) {
+		return "(<%= n %><% let n = 7 %><% let fresh = 1 %>" + probeUnset("q") + ")", nil
+	})
+	body := "(<%= n %><% let n = 7 %><% let fresh = 1 %>" + probeUnset("q") + ")"
+	bodyE := "(" + itoa(n0) + "U)"
+	bodyQ := "(" + itoa(n0) + "S)"
+	var in, want string
+	switch vrt.Choice(5) {
+	case 0: // contentOf three times; the first passes data the others omit
+		in = "<% contentFor(\"c\") { %>" + body + "<% } %><%= contentOf(\"c\", {q: Q1}) %><%= contentOf(\"c\") %><%= contentOf(\"c\") %>"
+		want = bodyQ + bodyE + bodyE
+	case 1:
+		in = "<% let g = fn() { %>" + body + "<% } %><%= g() %><%= g() %>"
+		want = bodyE + bodyE
+	case 2:
+		in = "<%= partial(\"p\", {q: Q1}) %><%= partial(\"p\") %>"
+		want = bodyQ + bodyE
+	case 3:
+		in = "<%= for (i) in [1, 2] { %><%= own() { %>" + body + "<% } %><% } %>"
+		want = bodyE + bodyE
+	default:
+		in = "<% contentFor(\"c\") { %>" + body + "<% } %><%= for (i) in [1, 2] { %><%= contentOf(\"c\") %><% } %>"
+		want = bodyE + bodyE
+	}
+	in = "<% let n = N0 %>" + in + "|<%= n %>" + probeUnset("fresh")
+	want += "|" + itoa(n0) + "U"
+	vrt.Note("input", in)
+	got, err := plush.Render(in, ctx)
+	vrt.Note("got", got)
+	vrt.Assert(err == nil, "repeated use renders")
+	vrt.Assert(got == want, "each use starts from the defining / calling scope: nothing bound in an earlier use is visible")
 	vrt.Cover("done")
 }
